@@ -5,7 +5,7 @@
     the statement names).  All statements are over EVERY model object [d] (no size bound). *)
 From Coq Require Import Ascii String List Bool Arith ZArith Permutation Sorted.
 From PTBase Require Import Exn PyStr.
-From P Require Import Lang Convert SectionLemmas SectionOrder MopLemmas ConvertLemmas ConvertLemmas2 WaiweraJson JsonLemmas JsonLemmas2 SourceJson Examples.
+From P Require Import Lang Convert SectionLemmas SectionOrder MopLemmas ConvertLemmas ConvertLemmas2 WaiweraJson JsonLemmas JsonLemmas2 SourceJson Examples RoundTrip.
 From Gen Require Import GenConvert.
 Import ListNotations.
 Open Scope list_scope.
@@ -265,3 +265,36 @@ Theorem rock_cells_all_orders : forall g l x cl,
       (nonbdy x b = false -> forall r', ~ In (Z.of_nat j) (nth r' cl [])).
 Proof. exact rock_cells_all_orders_lemma. Qed.
 Print Assumptions rock_cells_all_orders.
+
+(** ** round 6: history requests through TOUGH2 -> AUTOUGH2 -> TOUGH2, and a second conversion to TOUGH2 *)
+(** the converted model can always be converted back, and then holds exactly the block / connection requests that were
+    objects of the grid or bare names resolving to such objects (now objects), in order; every generator-history block comes
+    from a requested name that is the block of a listed generator; the short output is empty again; the grid is the same *)
+Theorem history_round_trip : forall mp mp' sim eos d d', convert_to_AUTOUGH2 mp sim eos d = Ok d' ->
+  exists d'', convert_to_TOUGH2 mp' d' = Ok d'' /\ history_round_trip_spec d d''.
+Proof. exact history_round_trip_lemma. Qed.
+Print Assumptions history_round_trip.
+(** requests held as block / connection objects come back unchanged *)
+Theorem history_objects_round_trip : forall mp mp' sim eos d d' d'',
+  convert_to_AUTOUGH2 mp sim eos d = Ok d' -> convert_to_TOUGH2 mp' d' = Ok d'' ->
+  Forall (fun it => is_block it = true) (hist_block d) -> Forall (fun it => is_conn it = true) (hist_conn d) ->
+  hist_block d'' = hist_block d /\ hist_conn d'' = hist_conn d.
+Proof. exact history_objects_round_trip_lemma. Qed.
+Print Assumptions history_objects_round_trip.
+(** the example TOUGH2 model (an object, a bare name in the grid, a name outside it; two bare connection pairs of which one is
+    in the grid) makes the round trip and comes back with two block objects and one connection object *)
+Theorem ex_history_round_trip :
+  on_ok (convert_to_AUTOUGH2 false (s2l default_simulator) (s2l default_eos) ex_t2) (fun d' =>
+    on_ok (convert_to_TOUGH2 false d') (fun d'' =>
+      match hist_block d'', hist_conn d'' with
+      | [IBlock a; IBlock b], [IConn _ _] => str_eqb a (s2l "  a 1") && str_eqb b (s2l "  b 1")
+      | _, _ => false
+      end)) = true.
+Proof. exact ex_history_round_trip_lemma. Qed.
+Print Assumptions ex_history_round_trip.
+(** a model that came out of convert_to_TOUGH2 can always be converted again, and the second conversion reports no generator
+    for deletion, keeps the generator list, every generator object, the history lists, grid and SOLVR, and is clean again *)
+Theorem to_tough2_twice : forall mp mp' d d', convert_to_TOUGH2 mp d = Ok d' ->
+  exists d'', convert_to_TOUGH2 mp' d' = Ok d'' /\ second_conversion_spec d' d''.
+Proof. exact to_tough2_twice_lemma. Qed.
+Print Assumptions to_tough2_twice.
